@@ -533,6 +533,14 @@ def run_names(ctx, n):
                          'printed index differs from the documented zero-padded decimal form (or does not parse back)')
         ctx.note_case(('fmt', z), nontrivial=True)
         ctx.count('chunk_id_str')
+    # the documented examples (docstrings of chunk_id_str / NpyFileChunkStore / S3ChunkStore): the SPEC side
+    for starts, doc in (((12, 1024, 0), '00012_01024_00000'), ((1, 512), '00001_00512'), ((0,), '00000')):
+        impl = ChunkStore.chunk_id_str(tuple(slice(a, a + 1) for a in starts))
+        nm = ChunkStore.chunk_metadata('arr/name', tuple(slice(a, a + 1) for a in starts))[0]
+        if impl != doc or nm != 'arr/name/' + doc:
+            ctx.disagree('op=chunk_id_str;documented_example', dict(starts=list(starts)), impl, None,
+                         'chunk id differs from the documented zero-padded form', spec=doc)
+        ctx.note_case(('doc', starts))
     cases = []
     for _ in range(n):
         nd = rng.randint(0, 4)
